@@ -213,16 +213,17 @@ def _red_data(c, fault=None):
     n = len(c["y"])
     k = c["k"]
     y, g, cf = list(c["y"]), list(c["g1"]), list(c["cf"])
-    if fault == "len_y":
-        y = _resize(y, k)
-    if fault == "len_sf":
-        g = _resize(g, k)
-    if fault == "len_cf":
-        cf = _resize(cf, k)
-    if fault == "bad_label":
+    faults = set(fault) if isinstance(fault, (list, tuple, set)) else {fault}
+    if "bad_label" in faults:
         y[c["pos"] % n] = BAD_LABELS[c["bad"] % len(BAD_LABELS)]
-    kw = {"sensitive_features": None if fault == "missing_sf" else _vec(c["sf_kind"], g, name="s")}
-    if (c["with_cf"] or fault == "len_cf") and c["moment"] not in ("BoundedGroupLoss",) and c["entry"] != "to_fit":
+    if "len_y" in faults:
+        y = _resize(y, k)
+    if "len_sf" in faults:
+        g = _resize(g, k)
+    if "len_cf" in faults:
+        cf = _resize(cf, k)
+    kw = {"sensitive_features": None if "missing_sf" in faults else _vec(c["sf_kind"], g, name="s")}
+    if (c["with_cf"] or "len_cf" in faults) and c["moment"] not in ("BoundedGroupLoss",) and c["entry"] != "to_fit":
         kw["control_features"] = _vec(c["cf_kind"], cf, name="c")
     return _X(n, c["levels"], c["x_kind"]), _vec(c["y_kind"], y, name="y"), kw
 
@@ -271,6 +272,14 @@ def check_reduction(c):
     _expect_ok(lambda: run(None), f"{entry}/{c['moment']}")
     _expect_raise(lambda: run(fault), f"{entry}/{c['moment']} with {fault} (k={c['k']}, pos={c['pos']}, bad={BAD_LABELS[c['bad'] % 5]!r}, y as {c['y_kind']}, sf as {c['sf_kind']})")
     tags = ["fault:" + fault, "entry:" + entry]
+    # two problems at once are rejected too (one defect must not mask the check for the other)
+    second = c.get("fault2")
+    if second and second != fault:
+        c2 = dict(c, fault=second)
+        f2 = _applicable(c2)
+        if f2 != fault:
+            _expect_raise(lambda: run([fault, f2]), f"{entry}/{c['moment']} with both {fault} and {f2}")
+            tags.append("two_faults")
     n = len(c["y"])
     if (fault.startswith("len") and c["k"] != 1) or (fault == "bad_label" and c["pos"] % n != n - 1) or \
             "series" in (c["y_kind"], c["sf_kind"]) or "dataframe" in (c["y_kind"], c["sf_kind"]):
@@ -516,6 +525,7 @@ def _red_cases(draw):
     c["entry"] = draw(st.sampled_from(["moment", "moment", "moment", "moment", "to_fit", "to_fit", "eg", "gs"]))
     c["moment"] = draw(st.sampled_from(MOMENTS))
     c["fault"] = draw(st.sampled_from(DATA_FAULTS))
+    c["fault2"] = draw(st.sampled_from([None, None] + DATA_FAULTS))
     if c["entry"] == "to_fit":
         c["levels"] = c["scores"]
     return c
